@@ -58,6 +58,8 @@ structure Mod where
   buffers : Dict (Option Tn) := []     -- module._buffers      (None entries allowed)
   plain   : Dict Tn := []              -- tensor-valued entries of module.__dict__
   kids    : Dict (Option MId) := []    -- module._modules      (None entries allowed)
+  custom  : Bool := false              -- type(module).__setattr__ is not nn.Module.__setattr__
+  nonPersistent : List Name := []      -- module._non_persistent_buffers_set
   deriving Repr, Inhabited
 
 abbrev Heap := MId → Mod
@@ -114,8 +116,36 @@ def setTensorWith (plc : Mod → Name → Tn → Bool → Mod) (md : Mod) (name 
       | some out => .ok (plc { md2 with plain := md2.plain.pop name } name t false, out)
       | none => .error (.key, md2)
 
-def setTensor := setTensorWith place
+/-- the native branch (`type(module).__setattr__ is nn.Module.__setattr__`): `_set_tensor_dict` -/
+def setTensorNative := setTensorWith place
 def setTensorOld := setTensorWith placeOld
+
+/-- mirrors the other branch of tensordict/_td.py:TensorDict._to_module (a module class that overrides
+`__setattr__`; inplace=False, not under dynamo), repaired: a non-Parameter aimed at a `_parameters` slot is
+popped and `setattr` puts it into `__dict__`; otherwise torch.nn.utils._named_member_accessor.swap_tensor:
+a name in `_parameters` / `_buffers` keeps its slot (replaced in place), any other attribute goes through
+`setattr` — `register_parameter` for a Parameter, `__dict__` for a plain tensor. A `None` entry would put
+`None` into the swap: answered `type` (outside the model). -/
+def setTensorCustom (md : Mod) (name : Name) (t : Tn) : Except (Err × Mod) (Mod × Tn) :=
+  match Dict.get? md.params name with
+  | some (some out) =>
+    if t.isParam then .ok ({ md with params := md.params.set name (some t) }, out)
+    else .ok ({ md with params := md.params.pop name, plain := md.plain.set name t }, out)
+  | some none => .error (.type, md)
+  | none =>
+    match Dict.get? md.buffers name with
+    | some (some out) => .ok ({ md with buffers := md.buffers.set name (some t) }, out)
+    | some none => .error (.type, md)
+    | none =>
+      match Dict.get? md.plain name with
+      | some out =>
+        if t.isParam then .ok ({ md with plain := md.plain.pop name, params := md.params.set name (some t) }, out)
+        else .ok ({ md with plain := md.plain.set name t }, out)
+      | none => .error (.attr, md)
+
+/-- the leaf step of `_to_module`: which branch depends on the module's class -/
+def setTensor (md : Mod) (name : Name) (t : Tn) : Except (Err × Mod) (Mod × Tn) :=
+  if md.custom then setTensorCustom md name t else setTensorNative md name t
 
 /-- a parameter tensordict: nested, insertion-ordered; leaves are tensor objects -/
 inductive PTree where
@@ -228,6 +258,47 @@ def fromKids (h : Heap) : Nat → List (Name × Option MId) → Dict PTree → E
     | .ok (some sub) => fromKids h fuel rest (Dict.set dest k (.node sub))
 end
 
+/-! ### use_state_dict=True -/
+
+/-- what `module._save_to_state_dict(destination, "", keep_vars=False)` sees of one module: every non-None parameter
+and every non-None *persistent* buffer, detached (a plain tensor over the same storage: same identity number here,
+no longer an `nn.Parameter`) -/
+def sdView (md : Mod) : Mod :=
+  { md with
+    params := md.params.map (fun e => (e.1, e.2.map (fun t => { t with isParam := false }))),
+    buffers := (md.buffers.filter (fun e => !(md.nonPersistent.contains e.1))).map
+      (fun e => (e.1, e.2.map (fun t => { t with isParam := false }))) }
+
+/-- mirrors `TensorDict._from_module(use_state_dict=True)` (no state-dict hooks registered): the walk of
+`_from_module` over the state-dict view of every module -/
+def fromModuleSD (h : Heap) (fuel : Nat) (m : MId) : Except Err (Option (List (Name × PTree))) :=
+  fromModule (fun c => sdView (h c)) fuel m
+
+/-- the leaf entries of one tensordict node, in order -/
+def leavesOf : List (Name × PTree) → List (Name × PTree)
+  | [] => []
+  | (k, .leaf t) :: r => (k, .leaf t) :: leavesOf r
+  | (_, .node _) :: r => leavesOf r
+
+/-- the nested entries of one node, each re-nested, empty ones dropped -/
+def nodesRenest : List (Name × PTree) → List (Name × PTree)
+  | [] => []
+  | (_, .leaf _) :: r => nodesRenest r
+  | (k, .node es) :: r =>
+    match leavesOf es ++ nodesRenest es with
+    | [] => nodesRenest r
+    | es' => (k, .node es') :: nodesRenest r
+
+/-- `state_dict.flatten_keys(".")` … `unflatten_keys(".")` in `_to_module(use_state_dict=True)`: at every level the
+leaves come first (in their order), then the nested tensordicts (in theirs); nested tensordicts without any leaf
+below them disappear -/
+def pruneEmpty (es : List (Name × PTree)) : List (Name × PTree) := leavesOf es ++ nodesRenest es
+
+/-- mirrors `_to_module(use_state_dict=True)` without load-state-dict pre-hooks (repaired `convert_type`: a leaf the
+hooks did not replace is kept as it is; `inplace` stays falsy): the ordinary swap of the re-nested tensordict -/
+def swapSD (h : Heap) (m : MId) (p : List (Name × PTree)) : Except (Err × Heap) (Heap × List (Name × PTree)) :=
+  swap h m (pruneEmpty p)
+
 /-! ### spec side: what torch's `named_parameters` / `named_buffers` enumerate -/
 
 /-- leaves of a tensordict with their full key, in `items(True, True)` order -/
@@ -329,7 +400,7 @@ def exitBlockOld (σ : State) (i : Nat) (raised : Bool) : State × ExitRes :=
   if raised then (σ, .ok) else exitBlock σ i raised
 
 inductive Status where
-  | normal | raised | entryFailed | exitFailed
+  | normal | raised | raisedBase | entryFailed | exitFailed    -- raisedBase: left by a BaseException that is not an Exception
   deriving DecidableEq, Repr
 
 /-- bodies of with-blocks: statements that do not re-register module attributes (`nop`: forward
@@ -337,6 +408,9 @@ passes, arithmetic, in-place updates of tensor values), `raise`, nested blocks, 
 inductive Stmt where
   | nop
   | raise
+  /-- `raise KeyboardInterrupt` / `SystemExit` / a generator closed at a `yield` inside the block (GeneratorExit) / a
+  cancelled task: a BaseException that is not an Exception — `__exit__` takes its ordinary path, `except Exception` does not catch it -/
+  | raiseBase
   /-- `with p.to_module(m): body`; `temp` = `p` is not referenced from anywhere else (a temporary, or
   `del p; gc.collect()` in the body): the weak reference kept by the swap is dead at `__exit__` -/
   | block (p : List (Name × PTree)) (m : MId) (temp : Bool) (body : List Stmt)
@@ -346,6 +420,7 @@ mutual
 def execStmt (ex : State → Nat → Bool → State × ExitRes) : State → Stmt → State × Status
   | σ, .nop => (σ, .normal)
   | σ, .raise => (σ, .raised)
+  | σ, .raiseBase => (σ, .raisedBase)
   | σ, .block p m temp body =>
     match toModule σ p m temp with
     | .error σ' => (σ', .entryFailed)
